@@ -68,7 +68,7 @@ theorem C09_partial_daily (sigs : Content) (log : Log) :
       ∃ g' ∈ recompute Defects.asImplemented sigs log, g'.room = g.room ∧ g'.ent = g.ent ∧
         ∃ r' ∈ g'.rows, r'.day = r.day ∧ r'.dirty = false ∧
           r'.count = (sigs g.room g.ent r.day).length ∧ r'.daily = dailyOf (sigs g.room g.ent r.day) :=
-  recomputeFrom_marked rfl rfl sigs log Cursor.init
+  recomputeFrom_marked_static rfl rfl sigs log Cursor.init
 
 /-! ### witnesses: the code as it is does not satisfy the full statement -/
 
@@ -129,9 +129,10 @@ theorem C09_breaks_emptyDayRow :
         [.write (contentOf [(k10, 5)]) [k10], .commit, .compute, .write (contentOf []) [k10], .commit, .compute]).log = [] := by
   decide
 
-/-- **C09_breaks_lazyScan** (new). The `SELECT` of `compute` is stepped while the loop updates the table: two
-    fresh marked days recomputed together — the first is returned a second time and chained with itself;
-    recomputed one by one it is not. Same content, different history hashes. -/
+/-- **C09_breaks_lazyScan** (found by the correspondence run, fixed in /repo by 079e672 — regression witness). With the
+    `SELECT` of `compute` stepped while the loop updates the table, two fresh marked days recomputed together:
+    the first is returned a second time and chained with itself; recomputed one by one it is not. Same
+    content, different history hashes. -/
 theorem C09_breaks_lazyScan :
     (run { Defects.none with lazyScan := true } St.init twoDaysAtOnce).log ≠
       (run Defects.none St.init twoDaysAtOnce).log ∧
@@ -139,7 +140,7 @@ theorem C09_breaks_lazyScan :
       (run Defects.none St.init twoDays).log := by
   decide
 
-/-- **C09_breaks_lazyScan_stale** (new). Under the lazily evaluated `SELECT` an unmarked row after the last
+/-- **C09_breaks_lazyScan_stale** (regression witness, see above). Under the lazily evaluated `SELECT` an unmarked row after the last
     marked one is never returned: when day 0 changes, the history of day 1 keeps chaining the OLD day 0. -/
 theorem C09_breaks_lazyScan_stale :
     (run { Defects.none with lazyScan := true } St.init
